@@ -1,7 +1,7 @@
 """C06 — Fq and Fr arithmetic is exact integer arithmetic modulo q and r (structural clauses)."""
 from core import report
 from core.sm9 import Repo
-from . import shared, field, consts
+from . import shared, field, consts, ladder
 from .c13 import rule_canon_conv
 from . import conv2
 
@@ -13,7 +13,7 @@ def run(ctx):
     closed, prim, r_step = shared.classify_u256(repo)
     rules = [consts.rule_const("C06", repo), shared.rule_guard(repo), field.rule_guard_extra("C06", repo), r_step, field.rule_inv_none("C06", repo),
              field.rule_ops_forward("C06", repo, ["crate::fields::fp::Fr", "crate::fields::fp::Fq", "crate::Fr", "crate::Fq"]),
-             field.rule_ladder("C06", repo, LADDERS), field.rule_bits("C06", repo), rule_canon_conv(repo), conv2.rule_scalar_encoders("C06", repo, conv2.make_conv(repo))]
+             ladder.rule_ladder("C06", repo, LADDERS), field.rule_bits("C06", repo), rule_canon_conv(repo), conv2.rule_scalar_encoders("C06", repo, conv2.make_conv(repo))]
     return report.emit(
         "C06", ctx.tier, ctx.seed, rules, ctx.started,
         "Montgomery constants (R, R², −p⁻¹) by defining relation and paired with their own type at every modular call site; truth tables of every modulus-boundary comparison over the "
